@@ -65,11 +65,13 @@ type Env struct {
 	Body ast.Node                                // when set, locals with a single definition in Body are evaluated through it
 	// Multi gives the results of a multi-value call on the right of "a, b := f(x)" (nil, false = unsupported)
 	Multi func(env *Env, c *ast.CallExpr) ([]*Val, bool)
+	// MapOk answers "v, ok := m[k]" for maps whose content the rule chooses (nil = unsupported)
+	MapOk func(env *Env, ix *ast.IndexExpr) (val *Val, ok bool, handled bool)
 	depth int
 }
 
 func (env *Env) child(pkg *packages.Package) *Env {
-	return &Env{P: env.P, Pkg: pkg, Vars: map[types.Object]*Val{}, Hook: env.Hook, Multi: env.Multi, depth: env.depth + 1}
+	return &Env{P: env.P, Pkg: pkg, Vars: map[types.Object]*Val{}, Hook: env.Hook, Multi: env.Multi, MapOk: env.MapOk, depth: env.depth + 1}
 }
 
 type evalErr struct{ msg string }
@@ -505,6 +507,16 @@ func (env *Env) execBlock(list []ast.Stmt) ([]*Val, bool) {
 								}
 							}
 						}
+						continue
+					}
+				}
+				if ix, ok := ast.Unparen(x.Rhs[0]).(*ast.IndexExpr); ok && len(x.Rhs) == 1 && len(x.Lhs) == 2 && env.MapOk != nil {
+					if v, present, handled := env.MapOk(env, ix); handled {
+						if v == nil {
+							v = &Val{Tag: "map-element"}
+						}
+						env.assignTo(x.Lhs[0], v)
+						env.assignTo(x.Lhs[1], boolVal(present))
 						continue
 					}
 				}
